@@ -187,7 +187,7 @@ func NewLockAnalysis(p *Prog, pkgs ...string) *LockAnalysis {
 func (la *LockAnalysis) lockOnly(st *State) *State {
 	n := NewState()
 	for k, v := range st.F {
-		if v.Min < 1 {
+		if v.Max < 1 {
 			continue
 		}
 		keep := strings.HasPrefix(k, "L:") || strings.HasPrefix(k, "R:")
@@ -197,24 +197,16 @@ func (la *LockAnalysis) lockOnly(st *State) *State {
 			}
 		}
 		if keep {
-			n.F[k] = Cnt{1, 1}
+			n.F[k] = Cnt{min8(v.Min, 1), 1}
 		}
 	}
 	return n
 }
 
-func meet(a, b *State) *State { // intersection of must facts; nil = top
-	if a == nil {
-		return b.Clone()
-	}
-	n := NewState()
-	for k, v := range a.F {
-		if v.Min >= 1 && b.F[k].Min >= 1 {
-			n.F[k] = Cnt{1, 1}
-		}
-	}
-	return n
-}
+// meet merges the lock state of one more call site into a callee's entry state: a lock is a
+// must-lock at entry only if every call site holds it, and a may-lock if any does. nil = no
+// call site seen yet.
+func meet(a, b *State) *State { return Join(a, b) }
 
 // hooks builds the interpreter hooks for one function; visit (may be nil) sees every node
 // with the state before the node's own lock effect.
